@@ -508,6 +508,13 @@ class Poly:
             if flt:
                 out = Poly(out.t, False)
             return out
+        if e == 0.5 and not self.is_const() and self.is_real_valued():
+            import z3
+            from .sym import current
+            c = current()
+            r = c.fresh_real("sqrt")
+            c.side.append(z3.And(r >= 0, r * r == self.to_z3()))
+            return Poly.atom(r)
         if e == 0.5 and self.is_const():
             c = self.const_cyc()
             if c.is_rational():
